@@ -166,6 +166,25 @@ class FakeTLSStream(FakeStream):
         raise trio.BusyResourceError("send_eof is not supported on TLS streams") if False else AttributeError("send_eof")
 
 
+class StepCounter(trio.abc.Instrument):
+    """Counts task steps between quiescent points; a server that spins is cut off."""
+
+    LIMIT = 200000
+
+    def __init__(self, env: "TrioEnv") -> None:
+        self.env = env
+        self.count = 0
+
+    def before_task_step(self, task) -> None:
+        self.count += 1
+        if self.count > self.LIMIT and not self.env.spinning:
+            self.env.spinning = True
+            self.env.sess.trace.log("spin", now=ms(self.env.now()))
+            self.env.sess.trace.sealed = True
+            if self.env.root_scope is not None:
+                self.env.root_scope.cancel()
+
+
 class TrioGate:
     def __init__(self, env: "TrioEnv", rid: str) -> None:
         self.env = env
@@ -198,6 +217,9 @@ class TrioEnv:
         self.handler_done = False
         self.clock = trio.testing.MockClock()
         self.iterations = 0
+        self.spinning = False
+        self.root_scope = None
+        self.counter = StepCounter(self)
 
     # ---- gates ------------------------------------------------------------------------
     def new_gate(self, rid: str) -> TrioGate:
@@ -304,8 +326,9 @@ class TrioEnv:
             self.sess.trace.log("handler_done", exc=exc_name, now=ms(self.now()))
 
     async def _settle(self) -> int:
+        self.counter.count = 0
         await trio.testing.wait_all_tasks_blocked()
-        return 0
+        return self.counter.count
 
     async def _run_steps(self, gen) -> None:
         for item in gen:
@@ -324,8 +347,8 @@ class TrioEnv:
                 remaining = target - self.now()
                 if remaining > 0:
                     self.clock.jump(remaining)
-            await self._settle()
-            self.quiescent(0)
+            n = await self._settle()
+            self.quiescent(n)
 
     async def _main(self) -> None:
         sess = self.sess
@@ -344,6 +367,7 @@ class TrioEnv:
         try:
             async with trio.open_nursery() as nursery:
                 self.nursery = nursery
+                self.root_scope = nursery.cancel_scope
                 nursery.start_soon(self._handler)
                 await self._settle()
                 self.quiescent(0)
@@ -357,7 +381,7 @@ class TrioEnv:
                 raise
 
     def run(self) -> None:
-        trio.run(self._main, clock=self.clock)
+        trio.run(self._main, clock=self.clock, instruments=[self.counter])
 
 
 def _count_tasks(task) -> int:
